@@ -537,7 +537,25 @@ def enrich_for_hashing(rng, spec):
 
 
 def hash_lines(stdout):
-    return [l for l in stdout.splitlines() if l.strip() and "total time" not in l]
+    """Canonical form of `plz hash` output: per-label blocks, sorted by label (the command prints
+    labels in command-line order, which the check permutes on purpose)."""
+    blocks = {}
+    cur = None
+    for l in stdout.splitlines():
+        if not l.strip() or "total time" in l:
+            continue
+        st = l.strip()
+        if l.startswith("//") and st.endswith(":"):
+            cur = st[:-1]
+            blocks.setdefault(cur, [])
+        elif l.startswith("  //") and ": " in st:
+            lab, h = st.rsplit(": ", 1)
+            blocks.setdefault(lab, []).append("hash " + h)
+        elif cur is not None:
+            blocks[cur].append(st)
+        else:
+            blocks.setdefault("?", []).append(st)
+    return [[k] + blocks[k] for k in sorted(blocks)]
 
 
 def gen_case_c07(seed, tier):
